@@ -187,11 +187,18 @@ func Flush() {
 	_ = os.WriteFile(path+".hashes", buf, 0o644)
 }
 
+var replayLabel string
+
 func writeReplay(label string, c any, err error) {
 	path := os.Getenv("VERIF_REPLAY_OUT")
 	if path == "" {
 		return
 	}
+	// the first failing test of a process owns the replay file (later shrink steps of the same test overwrite it)
+	if replayLabel != "" && replayLabel != label {
+		return
+	}
+	replayLabel = label
 	js, _ := json.Marshal(c)
 	r := Replay{Property: os.Getenv("VERIF_PROP"), Test: label, Context: Context, Case: js, Error: err.Error()}
 	b, _ := json.MarshalIndent(r, "", " ")
